@@ -62,6 +62,9 @@ def gen(ctx, n):
         {'seed': 1, 'tree': L('lstm', layers=2, bidir=True), 'kw': {}},
         {'seed': 1, 'tree': L('mha', bkv=True, zattn=True), 'kw': {'num_groups': 2}},
         {'seed': 1, 'tree': L('bn1'), 'kw': {}},
+        {'seed': 2, 'tree': {'t': 'seq', 'ch': [L('lin'), L('lstm', layers=2)]}, 'kw': {}, 'f32default': True},
+        {'seed': 2, 'tree': {'t': 'seq', 'ch': [L('lin'), L('mha')]}, 'kw': {}, 'root_eval': True},
+        {'seed': 3, 'tree': {'t': 'seq', 'ch': [L('lin'), L('lstm', layers=2)]}, 'kw': {}, 'freeze_first': True},
         {'seed': 1, 'tree': {'t': 'seq', 'ch': [L('lin'), dict(L('lstm'), frozen=True)]}, 'kw': {}},
     ]
     for _ in range(n):
@@ -69,6 +72,10 @@ def gen(ctx, n):
         c = {'seed': r.randint(0, 10**5), 'tree': tree(r, r.randint(1, 3)), 'kw': kw}
         if r.random() < 0.1:
             c['root_eval'] = True
+        if r.random() < 0.3:
+            c['f32default'] = True
+        if r.random() < 0.25:
+            c['freeze_first'] = True
         cases.append(c)
     return cases
 
@@ -132,6 +139,12 @@ def judge(ctx, c, rr):
         ctx.fail('fix-not-valid', 'validate(fix(module)) = %s' % rr['fixed_validate'], c)
     if rr['root_training'] and rr['fixed_validate'] == [] and rr.get('fixed_n_trainable', 0) > 0 and rr['fixed_mp'] != 'ok':
         ctx.fail('fixed-module-rejected', 'make_private refuses the module returned by fix(): %s (GradSampleModule errors: %s)' % (rr['fixed_mp'], rr['fixed_gsm_errors']), c)
+    if rr.get('fixed_mode_diff'):
+        ctx.fail('fix-changes-mode', 'fix() returned a module whose sub-modules %s are in another train / eval mode than in the argument (an eval-mode model gets training-mode replacements: dropout active)' % rr['fixed_mode_diff'], c)
+    if rr.get('fixed_unfrozen'):
+        ctx.fail('fix-unfreezes-parameters', 'frozen parameters of a replaced LSTM are trainable in the module returned by fix(): %s' % rr['fixed_unfrozen'], c)
+    if rr.get('fixed_dtype_diff'):
+        ctx.fail('fix-changes-dtype', 'fix() returned a module whose parameters %s have another dtype than the argument\'s' % rr['fixed_dtype_diff'], c)
     if rr['equiv_bad']:
         ctx.fail('fix-replacement-not-equivalent', 'replacement computes a different function: %s' % rr['equiv_bad'][:2], c)
     # replaced set = registered types met on the trainable walk
